@@ -257,6 +257,8 @@ type sim struct {
 	byzProps           map[[2]int64]msg // (h,r) -> first proposal a byzantine proposer sent
 	// set when a byzantine proposer sent two different proposals for one (h,r)
 	byzProposalEquivocation bool
+	// systematic mode: the deviations this schedule consists of (for the witness)
+	sysDevs []deviation
 }
 
 type stats struct {
